@@ -207,7 +207,7 @@ def evaluate_target(target, real=False):
             res = get_evaluatable().create_from(target).evaluate()
             return {"kind": "ok", "results": PL._canon_results(res, False)}
     except BaseException as e:  # noqa
-        if isinstance(e, (KeyboardInterrupt, SystemExit)):
+        if isinstance(e, (KeyboardInterrupt, SystemExit, PL.WallBudget)):
             raise
         return PL.outcome_of_exception(e)
 
